@@ -90,6 +90,7 @@ type Ctx struct {
 	atomics   map[*Value]Value // sync/atomic cells (by address)
 	syncMaps  map[*Value]interface{}
 	syncOrder map[*Value]*[]string
+	pools     map[*Value][]Value // sync.Pool contents per pool address
 	stack     []string
 	Steps     int
 	MaxSteps  int
@@ -113,6 +114,7 @@ type Ctx struct {
 	NoMerge        bool
 	stopAtBoundary bool
 	axiomDone      map[int64]bool
+	bitsOf         map[int64]*smt.Term // math.Float32bits/Float64bits: bit-pattern symbol per float term
 	spec           int
 	// frame monitor
 	protected map[*Shadow]string
@@ -585,10 +587,20 @@ func (c *Ctx) modelStrings(m smt.Model) map[string]string {
 	out := map[string]string{}
 	for _, s := range c.named {
 		v, ok := m[s.Name]
-		if !ok {
+		if !ok || strings.HasPrefix(s.Name, "bits!") {
 			continue
 		}
 		out[s.Name] = encodeConst(v)
+		// a NaN input whose bit pattern the code looked at: replay with the pattern of the witness
+		if b, ok := c.bitsOf[s.ID]; ok && s.Sort.IsFP() {
+			if bv, ok := m[b.Name]; ok && bv.IsConst() {
+				if s.Sort.K == smt.KFP32 {
+					out[s.Name] = fmt.Sprintf("f32:%08x", uint32(bv.U))
+				} else {
+					out[s.Name] = fmt.Sprintf("f64:%016x", bv.U)
+				}
+			}
+		}
 	}
 	return out
 }
@@ -635,6 +647,14 @@ func (c *Ctx) violated(label string, neg *smt.Term, detail string, pmsg string) 
 			c.E.Incon = append(c.E.Incon, Inconclusive{What: "assertion " + label + ": solver unknown", Site: c.where()})
 		}
 		return
+	}
+	// a violated equality over the reals: prefer a witness in which the two sides are at least 1 apart, so that
+	// the native replay (float arithmetic, compared with a tolerance) does not lose it to rounding
+	if neg != nil && neg.Op == smt.ONot && neg.Args[0].Op == smt.OEq && neg.Args[0].Args[0].Sort.K == smt.KReal {
+		a, b, one := neg.Args[0].Args[0], neg.Args[0].Args[1], st.RealI(1)
+		if r3, m3 := c.solve(true, st.Or(st.RLt(st.RAdd(a, one), b), st.RLt(st.RAdd(b, one), a))); r3 == smt.Sat {
+			m = m3
+		}
 	}
 	var inRegions []string
 	var knownConds []*smt.Term
